@@ -149,6 +149,30 @@ def native_check(chk, cat, ents, patterns, names, label, nonempty_tags, why=None
                   {'job': 'analyze_dir', 'category': cat, 'tree': ents, 'patterns': pnames, 'expected': want, 'observed': got if got is not None else raw})
 
 
+def content_family(chk):
+    """the compiled analyze_dir on trees in which eligible files without any token (blank with line feeds, empty, comments only)
+    stand before / after / between files with findings and sub-directories, in every listing order of the top directory"""
+    import itertools
+    names = {c: dict(dl.CATS[c]['patterns']) for c in dl.CATS}
+    kinds = list(dl.SPECIAL_CONTENTS) if not chk.quick else ['blank', 'comment', 'empty']
+    trees = []
+    for k in kinds:
+        trees.append([('file', 'W.sol', 'w', k), ('file', 'A.sol', 'a')])
+        trees.append([('file', 'W.sol', 'w', k), ('dir', 'd', [('file', 'B.sol', 'b')]), ('file', 'A.sol', 'a')])
+        trees.append([('dir', 'd', [('file', 'W.sol', 'w', k), ('file', 'B.sol', 'b')]), ('file', 'A.sol', 'a')])
+    trees.append([('file', 'W1.sol', 'w1', 'blank'), ('file', 'W2.sol', 'w2', 'blank'), ('file', 'A.sol', 'a')])
+    for cat in dl.CATS:
+        pats = [p for p, _ in dl.CATS[cat]['patterns']][:2]
+        for ents in trees:
+            for perm in itertools.permutations(range(len(ents))):
+                listing = {'root': ['root/e%d' % i for i in perm]}
+                ents2 = dl.rename_for_order(ents, 'root', listing, chk.rng, chk.native.dir)
+                tags = {f[2]: ([] if len(f) > 3 else [names[cat][p] for p in pats]) for f in all_files(ents2)}
+                native_check(chk, cat, ents2, pats, names[cat], '%s content family %r order %r' % (cat, [e_[3] if len(e_) > 3 else e_[0] for e_ in ents], perm), tags)
+                chk.ok()
+    chk.sample({'content family': '%d trees x every listing order of the top directory x 3 categories: token-free eligible files (%s) next to files with findings' % (len(trees), ', '.join(kinds))})
+
+
 def body(chk):
     sh, subs = shapes(chk)
     todo = {c: [] for c in dl.CATS}
@@ -178,6 +202,7 @@ def body(chk):
         for k in range(0, len(lst), 6):
             items.append((cat, lst[k:k + 6]))
     chk.parallel(job, items)
+    content_family(chk)
     # translator validation on real directories: a handful of trees through the compiled analyze_dir
     names = {c: dict(dl.CATS[c]['patterns']) for c in dl.CATS}
     for cat in dl.CATS:
